@@ -186,3 +186,48 @@ def declarations(out, stats, fps, V):
             out.append(V("late_rejection", tag + "/override-wrong-exception", f"{tag}: {type(exc).__name__}: {exc}"))
 
 
+
+
+# ---------------------------------------------------------------------------------------------- C08: signatures
+from typing import Optional
+
+ANNOS = {"int": int, "str": str, "float": float, "bool": bool, "list[int]": list[int], "dict[str,int]": dict[str, int],
+         "Optional[int]": Optional[int], "none": inspect.Parameter.empty}
+SAMPLE = {"int": [3, 0, -7], "str": ["s", ""], "float": [1.5, -0.25], "bool": [True, False], "list[int]": [[1, 2], []],
+          "dict[str,int]": [{"k": 1}, {}], "Optional[int]": [None, 4], "none": [1, "x", [1], {"z": 2}, None]}
+
+
+def _dep_provider():
+    return "DEP"
+
+
+DEP = Depends(_dep_provider)
+KINDS = {"po": inspect.Parameter.POSITIONAL_ONLY, "pk": inspect.Parameter.POSITIONAL_OR_KEYWORD, "ko": inspect.Parameter.KEYWORD_ONLY}
+
+
+def build_signature_fn(spec, ret_anno=None, name="sigfn"):
+    """spec: list of dicts {name, kind: po|pk|ko|dep|var_args|var_kwargs, anno, has_default, default}.
+    Returns (fn, calls) where fn(*a, **kw) records its call in `calls`."""
+    calls = []
+
+    async def fn(*a, **kw):
+        calls.append((a, kw))
+        return None
+
+    params = []
+    for p in spec:
+        if p["kind"] == "var_args":
+            params.append(inspect.Parameter("args", inspect.Parameter.VAR_POSITIONAL))
+        elif p["kind"] == "var_kwargs":
+            params.append(inspect.Parameter("kwargs", inspect.Parameter.VAR_KEYWORD))
+        elif p["kind"] == "dep":
+            params.append(inspect.Parameter(p["name"], KINDS[p["dep_kind"]], annotation=Annotated[Any, DEP]))
+        else:
+            params.append(inspect.Parameter(p["name"], KINDS[p["kind"]], annotation=ANNOS[p["anno"]],
+                                            default=p["default"] if p["has_default"] else inspect.Parameter.empty))
+    kw = {}
+    if ret_anno is not None:
+        kw["return_annotation"] = ret_anno
+    fn.__signature__ = inspect.Signature(params, **kw)
+    fn.__name__ = name
+    return fn, calls
